@@ -1810,7 +1810,7 @@ def setitem_array(out_name, array, indices, value):
         zip(array_common_shape, value_common_shape, implied_shape_positions)
     ):
         index = indices[j]
-        if is_dask_collection(index) and index.dtype == bool:
+        if is_dask_collection(index) and index.dtype == bool and b != 1:
             if math.isnan(b) or b <= index.size:
                 base_value_indices.append(None)
                 non_broadcast_dimensions.append(i)
